@@ -221,10 +221,17 @@ func discharge(o *Obligation, opts solveOpts) {
 		o.Status, o.Solver, o.Seconds = "failed", decided.solver, decided.seconds
 	default:
 		o.Status = "unknown"
+		nErr := 0
 		for _, a := range answers {
 			if a.seconds > o.Seconds {
 				o.Seconds = a.seconds
 			}
+			if a.answer == "error" {
+				nErr++
+			}
+		}
+		if nErr == len(answers) && nErr > 0 {
+			o.Status = "error" // every solver rejected the query: a tool error, not a verdict
 		}
 	}
 }
